@@ -238,4 +238,8 @@ def to_chain_structure(qc, setup="linear"):
             # such as measurement or global phase.
             qc_t.add_gate(gate)
 
+    # The routed circuit must not share gate objects or index lists
+    # with the input circuit.
+    qc_t.gates = deepcopy(qc_t.gates)
+
     return qc_t
